@@ -401,8 +401,8 @@ Inductive preachable (cfs : list config) : pstate -> Prop :=
   | preach_step : forall ps pl ps', preachable cfs ps -> pstep cfs ps pl = Some ps' -> preachable cfs ps'.
 
 Definition p_returned (cfs : list config) (ps : pstate) : Prop := p_called ps = true /\ p_next ps = length cfs.
-Definition pmu (ps : pstate) : nat :=
-  fold_right (fun s acc => S (cmu s) + acc) 0 (skipn (p_next ps) (p_comps ps)).
+Definition psum (l : list state) : nat := fold_right (fun s a => cmu s + a) 0 l.
+Definition pmu (ps : pstate) : nat := psum (p_comps ps) + (length (p_comps ps) - p_next ps).
 
 (* ---- scenarios driven by the harness, observations, checker *)
 Inductive act := AStart | ACall | APanic | ARet.
